@@ -134,7 +134,26 @@ NESTED = [
 
 
 def gen_form(rng, light=False):
-    k = rng.weighted([("hostile", 10), ("benign", 3), ("nested", 1), ("literal-mutation", 1), ("long-token", 1), ("limb-arith", 1)])
+    k = rng.weighted([("hostile", 10), ("benign", 3), ("nested", 1), ("literal-mutation", 1), ("long-token", 1), ("limb-arith", 1), ("tower", 1)])
+    if k == "tower":
+        # generic arithmetic over every pair of number representations (fixnum, bignum, small / big ratio, flonum, complex with exact, inexact
+        # and ratio parts): each pair has its own conversion path in the C dispatch tables, and results that normalise to another
+        # representation (a zero exponent, a real product of complex factors) take paths of their own
+        from .. import progs
+        a, b = progs.tower_operand(rng), progs.tower_operand(rng)
+        op = rng.choice(["+", "-", "*", "/", "=", "<", "max", "quotient", "remainder", "modulo", "expt", "expt", "atan", "make-rectangular", "make-polar", "exact-integer-sqrt",
+                         "sqrt", "exp", "log", "sin", "exact", "inexact", "numerator", "floor", "round", "magnitude", "angle", "number->string", "square", "exact-rational?"])
+        if op == "expt":
+            b = rng.choice(["0", "1", "-1", "2", "-3", "1/2", "0.5", "0.0", "+i", "1+i", "7"])
+            if rng.chance(1, 4):
+                a, b = rng.choice(["0", "1", "-1", "2", "0.0", "+i", "1/2"]), progs.tower_operand(rng) if rng.chance(1, 2) else b
+                if b.lstrip("-").isdigit() and len(b) > 4:
+                    b = "3"
+        if op in ("sqrt", "exp", "log", "sin", "exact", "inexact", "numerator", "floor", "round", "magnitude", "angle", "number->string", "square", "exact-integer-sqrt", "exact-rational?"):
+            src = "(%s %s)" % (op, a)
+        else:
+            src = "(%s %s %s)" % (op, a, b)
+        return {"src": src, "kind": "tower"}
     if k == "limb-arith":
         # integer arithmetic whose operands and results sit at the edges of the bignum limb arrays: +-(2^(64k) - d) built by
         # arithmetic (exactly full limb arrays; literals of the same value carry a spare limb) combined with small operands
